@@ -82,6 +82,21 @@ impl ManiaGradualDifficulty {
             convert::apply_random_to_beatmap(map.to_mut(), seed);
         }
 
+        #[cfg(rosu_pp_verif)]
+        crate::verif::trace::emit(|| {
+            let objects: Vec<String> = map
+                .hit_objects
+                .iter()
+                .map(|h| format!("[{:?},{:?},{:?}]", h.pos.x, h.start_time, h.end_time()))
+                .collect();
+
+            format!(
+                r#"{{"g":"mania_gradual_objects","cs":{:?},"objects":[{}]}}"#,
+                map.cs,
+                objects.join(",")
+            )
+        });
+
         let take = difficulty.get_passed_objects();
         let total_columns = map.cs.round_ties_even().max(1.0);
         let clock_rate = difficulty.get_clock_rate();
